@@ -5,3 +5,5 @@ import LopdfModel.Model.Basic
 import LopdfModel.Model.Obj
 import LopdfModel.Model.Pages
 import LopdfModel.Thm.C12
+import LopdfModel.Gen.Crypt
+import LopdfModel.Model.Crypt
